@@ -532,7 +532,8 @@ Model: `AgModel.Pool` (`Model/Pool.lean`: `add_vote`, `add_cert`, `add_valid_cer
   tracker received (`mark_notar_fallback` for notarization / notar-fallback certificates, `mark_skipped` for skip
   certificates, `handle_finalization` with each event of the finality tracker, `prune` to `first_unpruned_slot`);
 * **premise** `Consistent L` (decidable): `Finality.Safe (finOps L)` (C08's premise: parents in earlier slots, one
-  parent per block, at most one finalized block per slot, …) and no skip certificate for a finalized slot — what
+  parent per block, at most one finalized block per slot, …), no skip certificate for a finalized slot, and the only
+  finalized block of slot 0 is genesis (explicit since the D27 repair weakened `Finality.Safe`) — what
   consensus safety (C01) gives for the certificates a correct node can ever hold.
 -/
 namespace AgModel.Pool
@@ -599,7 +600,10 @@ theorem pool_marks_exact (e : Epoch) (ops : List PoolOp) (hc : Consistent (poolL
       · by_cases h0 : 1 ≤ b.1
         · exact Or.inr (Or.inr ((ri.final_iff hc.safe b (Or.inl h0)).mpr a))
         · left
-          exact (hc.safe.notar_final (0, 0) b (Or.inl rfl) a (by simp; omega)).symm
+          have hb0 : b.1 = 0 := by omega
+          have hb' : b = (0, b.2) := Prod.ext hb0 rfl
+          rw [hb'] at a
+          exact Prod.ext hb0 (hc.genesis b.2 a)
   · intro s
     rw [ti.sk, ri.skip_iff hc.safe]
 
